@@ -51,7 +51,9 @@ func Data(r *R, min int) abs.HB {
 }
 
 func DataN(r *R, n int) abs.HB {
-	switch r.Intn(12) {
+	switch r.Intn(14) {
+	case 12:
+		return Text(r, n)
 	case 0:
 		return make(abs.HB, n) // zeros
 	case 1:
@@ -131,9 +133,12 @@ func IDData(r *R, typ uint8) abs.HB {
 		}
 		return Addr(r, 16)
 	case 2, 3:
-		if r.Bool() {
-			return abs.HB(r.PickS("n3iwf.5gc.mnc093.mcc208.pub.3gppnetwork.org", "user@example.org", "a"))
+		if r.Chance(2, 3) {
+			return Name(r)
 		}
+	}
+	if r.Chance(1, 8) {
+		return Text(r, r.Pick(8, 16, 32, 64))
 	}
 	return Data(r, 1)
 }
@@ -184,6 +189,44 @@ func NotifyData(r *R, typ uint16) abs.HB {
 		return DataN(r, 2)
 	}
 	return Data(r, 0)
+}
+
+// Text makes n octets that LOOK like text of some kind: code that sniffs formats (hex, base64, digits, printable
+// ASCII, UTF-8) or parses names must still treat binary fields as binary and text fields by their grammar.
+func Text(r *R, n int) abs.HB {
+	alpha := []string{"0123456789abcdef", "0123456789ABCDEF", "0123456789", "ABCDEFGHIJKLMNOPQRSTUVWXYZabcdefghijklmnopqrstuvwxyz0123456789+/", "abcdefghijklmnopqrstuvwxyz", " ~!@#$%^&*()_+", "\xc3\xa9\xe2\x82\xac"}[r.Intn(7)]
+	b := make(abs.HB, n)
+	for i := range b {
+		b[i] = alpha[r.Intn(len(alpha))]
+	}
+	if n > 2 && r.Chance(1, 4) {
+		b[n-1], b[n-2] = '=', '=' // base64 padding
+	}
+	return b
+}
+
+// Name makes FQDN / RFC 822 / NAI edge cases: empty labels, lone and trailing dots and hyphens, missing local part or
+// domain, several '@', control characters, very long labels.
+func Name(r *R) abs.HB {
+	edge := []string{".", "..", "a.", ".a", "a..b", "-", "a-", "-a", "a.-", "@", "a@", "@a", "a@.", "@.", "a@b.", "a@@b", "a@b@c", "a b", "\x00", "a\x00b", "a\r\nb",
+		"xn--", "*.example.org", "a@[10.0.0.1]", "0", "1.2.3.4", "::1", "localhost", "a@localhost", " ", "a@b.c.", "ue@", "ue@.", "ue@-", "ue@a-", "0208930000000001@nai.5gc.mnc093.mcc208.3gppnetwork.org"}
+	switch r.Intn(5) {
+	case 0, 1:
+		return abs.HB(edge[r.Intn(len(edge))])
+	case 2:
+		l := abs.HB(r.PickS("a", "ue", "0123456789012345"))
+		return append(append(l, '@'), abs.HB(edge[r.Intn(len(edge))])...)
+	case 3:
+		b := make(abs.HB, r.Pick(63, 64, 65, 253, 254, 255, 256))
+		for i := range b {
+			b[i] = 'a'
+		}
+		if r.Bool() {
+			b[len(b)/2] = '.'
+		}
+		return b
+	}
+	return abs.HB(r.PickS("n3iwf.5gc.mnc093.mcc208.pub.3gppnetwork.org", "user@example.org", "a"))
 }
 
 // KE makes a key exchange (group, public value) pair in which length and leading octets RELATE to the group the way
@@ -551,6 +594,9 @@ func EAP(r *R) *abs.EAP {
 func Method(r *R) *abs.Method {
 	switch r.Intn(7) {
 	case 0:
+		if r.Bool() {
+			return &abs.Method{Type: abs.MIdentity, Data: Name(r)}
+		}
 		return &abs.Method{Type: abs.MIdentity, Data: Data(r, 1)}
 	case 1:
 		return &abs.Method{Type: abs.MNotification, Data: Data(r, 1)}
